@@ -228,6 +228,19 @@ func (c *Case) Sample(build func() any) {
 	S.mu.Unlock()
 }
 
+// Journal records the case that is about to run in $VERIF_JOURNAL so that the driver can turn a
+// process death (panic in a library goroutine) into a replay file.
+func Journal(sub string, cas any) {
+	path := os.Getenv("VERIF_JOURNAL")
+	if path == "" {
+		return
+	}
+	b, err := json.Marshal(map[string]any{"sub": sub, "case": cas})
+	if err == nil {
+		os.WriteFile(path, b, 0o644)
+	}
+}
+
 // Excluded counts a generated case (or part) that was steered away from a known finding.
 func Excluded(n int) {
 	S.mu.Lock()
